@@ -29,6 +29,8 @@ func init() {
 		Doc: "the schema checker reaches every node and every added type (checkNode over Children(), CheckRootSchema over the type table): " + doc})
 	register(&Rule{ID: "VIS-allof", Min: 2, Run: func(c *load.Ctx, r *report.RuleResult) { runVIS1(c, r, "allof") },
 		Doc: "the allOf compiler reaches every node and every added type (processNode over Children(), CompileAllOf over the type table): " + doc})
+	register(&Rule{ID: "VIS-rec", Min: 1, Run: func(c *load.Ctx, r *report.RuleResult) { runVIS1(c, r, "rec") },
+		Doc: "the recursion checker follows every property of an object, the visited node being an element of Children(): " + doc})
 	register(&Rule{ID: "VIS-collect", Min: 3, Run: func(c *load.Ctx, r *report.RuleResult) { runVIS1(c, r, "collect") },
 		Doc: "the used-type collector reaches every property (key shortcuts included) and every array element: " + doc})
 }
@@ -39,16 +41,18 @@ type visInstance struct {
 	crel, cname string // the visiting callee
 	loopOnly    bool   // only the loop-body obligation (the loop itself is one of several cases)
 	why         string
+	argFrom     string // the visited node is an element of what this getter returns ("" = not required)
 }
 
 var visInstances = []visInstance{
-	{"check", pkgChecker, "checkSchema.checkNode", pkgChecker, "checkSchema.checkNode", false, "every child of a branch node is checked against its rules"},
-	{"check", pkgChecker, "CheckRootSchema", pkgChecker, "checkSchema.checkType", false, "every added type is checked"},
-	{"allof", pkgLoader, "allOfConstraintCompiler.processNode", pkgLoader, "allOfConstraintCompiler.processNode", false, "allOf is expanded in every node of the tree"},
-	{"allof", pkgLoader, "CompileAllOf", pkgLoader, "allOfConstraintCompiler.processType", false, "allOf is expanded inside every added type"},
-	{"collect", "notations/jschema", "userTypesCollector.collectUserTypesObjectNode", "notations/jschema", "userTypesCollector.collect", false, "type references are collected below every property, including key shortcuts"},
-	{"collect", "notations/jschema", "userTypesCollector.collect", "notations/jschema", "userTypesCollector.collect", true, "type references are collected below every array element"},
-	{"collect", "notations/jschema", "userTypesCollector.collect", "notations/jschema", "userTypesCollector.collectUserTypesObjectNode", true, "the properties of every object node are walked"},
+	{"check", pkgChecker, "checkSchema.checkNode", pkgChecker, "checkSchema.checkNode", false, "every child of a branch node is checked against its rules", "Children"},
+	{"check", pkgChecker, "CheckRootSchema", pkgChecker, "checkSchema.checkType", false, "every added type is checked", ""},
+	{"allof", pkgLoader, "allOfConstraintCompiler.processNode", pkgLoader, "allOfConstraintCompiler.processNode", false, "allOf is expanded in every node of the tree", "Children"},
+	{"allof", pkgLoader, "CompileAllOf", pkgLoader, "allOfConstraintCompiler.processType", false, "allOf is expanded inside every added type", ""},
+	{"collect", "notations/jschema", "userTypesCollector.collectUserTypesObjectNode", "notations/jschema", "userTypesCollector.collect", false, "type references are collected below every property, including key shortcuts", ""},
+	{"collect", "notations/jschema", "userTypesCollector.collect", "notations/jschema", "userTypesCollector.collect", true, "type references are collected below every array element", "Children"},
+	{"collect", "notations/jschema", "userTypesCollector.collect", "notations/jschema", "userTypesCollector.collectUserTypesObjectNode", true, "the properties of every object node are walked", ""},
+	{"rec", pkgChecker, "recursionChecker.check", pkgChecker, "recursionChecker.check", true, "the recursion check follows every property of an object (optional ones are skipped by the callee itself), key shortcuts included: a walk over the recorded required keys misses them", "Children"},
 }
 
 // commaOkFailureEdge reports which successor (0 = true edge, 1 = false edge) of the If ending block b
@@ -215,6 +219,22 @@ func runVIS1(c *load.Ctx, r *report.RuleResult, group string) {
 				_ = p // the other cases of the switch return without it by design: nothing to require
 			}
 		}
+		if problem == "" && vi.argFrom != "" {
+			for _, s := range sites {
+				if h, _ := innermostLoop(fn, s.Block()); h == nil {
+					continue
+				}
+				ok := false
+				for _, a := range s.Common().Args {
+					if elementOf(a, vi.argFrom, 0) {
+						ok = true
+					}
+				}
+				if !ok {
+					problem = fmt.Sprintf("the node handed to %s at %s is not an element of %s(): the walk follows a selection of the children, not all of them", callee.Name(), c.Pos(s.Pos()), vi.argFrom)
+				}
+			}
+		}
 		if problem != "" {
 			r.Bad(key, c.Pos(sites[0].Pos()), problem+" — "+vi.why)
 		} else {
@@ -249,3 +269,41 @@ func blockPath(c *load.Ctx, p []*ssa.BasicBlock) string {
 }
 
 var _ = load.Module
+
+// elementOf: the value is an element of the slice a getter of the given name returned (range over
+// the result of Children()).
+func elementOf(v ssa.Value, getter string, depth int) bool {
+	if depth > 8 {
+		return false
+	}
+	switch x := v.(type) {
+	case *ssa.UnOp:
+		return elementOf(x.X, getter, depth+1)
+	case *ssa.IndexAddr:
+		return elementOf(x.X, getter, depth+1)
+	case *ssa.Index:
+		return elementOf(x.X, getter, depth+1)
+	case *ssa.TypeAssert:
+		return elementOf(x.X, getter, depth+1)
+	case *ssa.MakeInterface:
+		return elementOf(x.X, getter, depth+1)
+	case *ssa.ChangeInterface:
+		return elementOf(x.X, getter, depth+1)
+	case *ssa.ChangeType:
+		return elementOf(x.X, getter, depth+1)
+	case *ssa.Phi:
+		for _, e := range x.Edges {
+			if elementOf(e, getter, depth+1) {
+				return true
+			}
+		}
+	case *ssa.Call:
+		if x.Call.IsInvoke() {
+			return x.Call.Method.Name() == getter
+		}
+		if sc := x.Call.StaticCallee(); sc != nil {
+			return sc.Name() == getter
+		}
+	}
+	return false
+}
